@@ -1,7 +1,7 @@
 SPECIFICATION Spec
 CONSTANTS MaxLen = 3
           MaxFill = 2
-          CoreFill = 3
+          CoreFill = 2
           SimLens = {}
           SimFill = {}
 INVARIANT Emit
